@@ -32,6 +32,8 @@ def rejections(ctx):
     out = [k[1] for k, v in table.items() if v.value != 0]
     es, sl = statuses(ctx)
     out += [es["ERR_FATAL"], es["INVALID_CALL"] if "INVALID_CALL" in es else es["BAD_ARGUMENT"], sl["FAIL"], sl["NOT_FOUND"], sl["INVALID_INDEX"], sl["INVALID_PARAMETER"]]
+    # a status byte this library has no name for (zigpy yields an `undefined_0x..` pseudo-member)
+    out += [Member(repo.cls(NAMED, "EmberStatus"), "undefined_0xee", 0xEE), Member(repo.cls(NAMED, "sl_Status"), "undefined_0x0bad", 0x0BAD)]
     seen, uniq = set(), []
     for m in out:
         if (m.cls.name, m.value) not in seen:
